@@ -122,8 +122,27 @@ def proj_exec_semantics(op, line):
     return re.sub(r" xw=\d+ flat=\d+", "", line)
 
 
+_STATE_OPS = ("fab", "genesis", "next", "batch", "seal", "block", "restore", "confirm", "mt", "mp", "dt", "dp")
+
+
+def proj_vm_and_batch_status(strip_cost):
+    """VM-level operations in full (optionally without the cost accounting); of the state operations only whether a batch is
+    accepted - which covenant runs approve is part of what C10 / C11 / C12 fix (every run starts from a clean machine, on the
+    strict decoder's program, and is a function of bytecode, transaction and environment alone)"""
+    def f(op, line):
+        kind = op.split(" ")[0]
+        if kind == "batch":
+            return line.split(" ")[0]
+        if kind in _STATE_OPS:
+            return None
+        return re.sub(r" xw=\d+ flat=\d+", "", line) if strip_cost else line
+    return f
+
+
 PROJECTIONS = {
     "all": proj_all,
+    "vm_semantics_and_batch_status": proj_vm_and_batch_status(True),
+    "vm_and_batch_status": proj_vm_and_batch_status(False),
     "exec_semantics": proj_exec_semantics,
     # C12: the codec operations in full; of the state operations only whether a batch is accepted (a coin whose covenant
     # hash names no program must not be spendable: the state transition function has to use the same strict decoder)
